@@ -24,7 +24,7 @@ func main() {
 
 	r.Assume("flex/selfarg: the value of a variadic argument is its content at the time of the call, also when the caller passes a sub-slice of the exported f.Values (as append and slices.Insert guarantee)")
 
-	r.Cases("setops/rand", r.N(100000, 3000000), ev.Opt{HangViolation: true}, randSetCase)
+	r.Cases("setops/rand", r.N(60000, 3000000), ev.Opt{HangViolation: true}, randSetCase)
 	small := smallScope{sym: 3, len1: 5, len2: 3}
 	if r.Thorough() {
 		small = smallScope{sym: 4, len1: 6, len2: 3}
@@ -32,9 +32,12 @@ func main() {
 	r.Cases("setops/small-int", small.total(), ev.Opt{HangViolation: true}, func(c *ev.Case) { smallRun(small, instInt, c) })
 	r.Cases("setops/small-pair", small.total(), ev.Opt{HangViolation: true}, func(c *ev.Case) { smallRun(small, instPair, c) })
 	r.Cases("bounds", r.N(60000, 1200000), ev.Opt{HangViolation: true}, boundsCase)
-	r.Cases("flex/mix", r.N(100000, 3000000), ev.Opt{HangViolation: true}, flexMixCase)
+	r.Cases("flex/mix", r.N(50000, 3000000), ev.Opt{HangViolation: true}, flexMixCase)
 	r.Cases("flex/threshold", r.N(40000, 800000), ev.Opt{HangViolation: true}, flexThresholdCase)
 	r.Cases("flex/selfarg", r.N(10000, 200000), ev.Opt{HangViolation: true}, flexSelfArgCase)
+	r.Cases("equal-nan", r.N(5000, 100000), ev.Opt{HangViolation: true}, equalNaNCase)
+	r.Require("equal_nan_cases", 1000)
+	r.Require("flex_selfarg_capacity_limited_arg", 500)
 
 	// anti-vacuity floors (far below what a healthy run observes)
 	for _, k := range []string{"calls/Diff", "calls/Intersect", "calls/Unique", "calls/DiffInPlaceFirst", "calls/IntersectInPlaceFirst", "calls/UniqueInPlace"} {
@@ -47,7 +50,7 @@ func main() {
 	r.Require("inplace_proper_partition", 20000)
 	r.Require("s1_with_duplicates", 20000)
 	r.Require("small_scope_inputs", 20000)
-	r.Require("setops_random_inputs", 500000)
+	r.Require("setops_random_inputs", 200000)
 	r.Require("calls/SubSlice", 100000)
 	r.Require("calls/Copy", 100000)
 	r.Require("copy_freshness_checked", 20000)
